@@ -398,7 +398,8 @@ def maybePublish (s : St) (oldS st oldAggr : CState) (order : List Slot) : St ×
 
 def opScs (s : St) (sc : Sc) (st : CState) (order : List Slot) : St × List Event :=
   match scsPrologue s sc st with
-  | none => (s, [.res "ok"])                            -- replacement not ready yet: ignored
+  | none =>                                             -- replacement not ready yet: ignored, but kept connecting
+    (s, (if st == .idle then [.connect sc] else []) ++ [.res "ok"])
   | some (s, ev0) =>
     match stateOf s sc with
     | none => (s, ev0 ++ [.res "ok"])                   -- unknown / removed connection
